@@ -78,7 +78,7 @@ func propC01(run *Run, n int) {
 func addC01Case(run *Run, o OptSet, label string, a, b *Val) {
 	aw, bw := a.Wire(), b.Wire()
 	dw, outcome, eq := implDiffPatch(o, aw, bw)
-	c := Case{Desc: map[string]string{"options": o.Name(), "a": a.Human(), "b": b.Human(), "a_wire": aw, "b_wire": bw, "opts_wire": o.Wire(), "impl_diff": dw, "impl_patch": outcome}}
+	c := Case{Recipe: Recipe{"c01", []string{o.Wire(), aw, bw}}, Desc: map[string]string{"options": o.Name(), "a": a.Human(), "b": b.Human(), "a_wire": aw, "b_wire": bw, "opts_wire": o.Wire(), "impl_diff": dw, "impl_patch": outcome}}
 	c.Nontrivial = hunkCount(dw) > 0
 	c.Sig = o.Wire() + "|" + aw + "|" + bw
 	c.Probes = append(c.Probes, Probe{Kind: "corr", Rel: "Diff;Patch = diffM;patchM", Line: fmt.Sprintf("diffpatch %s %s %s", o.Wire(), aw, bw), Want: dw + " " + outcome})
@@ -94,4 +94,24 @@ func addC01Case(run *Run, o OptSet, label string, a, b *Val) {
 	run.Count("size_a:" + sizeBucket(a.Size()))
 	run.Count("depth_a:" + fmt.Sprint(a.Depth()))
 	run.Add(c)
+}
+
+func mustVal(w string) *Val {
+	v, err := ParseWire(w)
+	if err != nil {
+		panic("bad wire value " + w + ": " + err.Error())
+	}
+	return v
+}
+
+func mustOpts(w string) OptSet {
+	o, err := ParseOpts(w)
+	if err != nil {
+		panic(err)
+	}
+	return o
+}
+
+func init() {
+	recipes["c01"] = func(run *Run, a []string) { addC01Case(run, mustOpts(a[0]), "corpus", mustVal(a[1]), mustVal(a[2])) }
 }
